@@ -70,7 +70,6 @@ deriving DecidableEq, Repr
 
 inductive DeferKind where
   | none | lazy | sync
-  | noop   -- a deferred `revokeOrphan` that revokes nothing (third-party rewrap, see `scriptOf`)
 deriving DecidableEq, Repr
 
 structure Script where
@@ -101,17 +100,16 @@ def scriptOf : Kind → Script
   | .rewrap1 => { pre := [.look false .cont, .look false (.stop .invalid)],
                   uses := true, body := [.set .denied], defer := .lazy }
   | .rewrap3 => { pre := [.look false (.stop .invalid), .taint (.stop .empty), .look false (.stop .errInternal)],
-                  -- handleWrappingRewrap defers `revokeOrphan(ctx, token)` with the token STRING OF THE REQUEST (the
-                  -- external, server-side-consistent form), not `te.ID` as unwrap does; `SaltID` does not decode it,
-                  -- so `revokeInternal` looks up an entry that does not exist and returns: nothing is revoked
-                  uses := true, body := [.getInfo, .getPayload, .set .rewrapped], defer := .noop }
+                  -- handleWrappingRewrap defers `revokeOrphan(ctx, te.ID)` like unwrap (since 158010c; before, it passed
+                  -- the request's token string, which `SaltID` does not decode, and nothing was revoked: finding F44)
+                  uses := true, body := [.getInfo, .getPayload, .set .rewrapped], defer := .sync }
   | .lookup1 => { pre := [.look false .cont, .look false (.stop .invalid), .taint (.stop .empty)],
                   uses := false, body := [.getInfo], defer := .none }
   | .lookup3 => { pre := [.look false (.stop .invalid), .taint (.stop .empty)],
                   uses := false, body := [.getInfo], defer := .none }
 
 /-- the token is the client token of the request (no synchronous `revokeOrphan` by the request itself) -/
-def firstParty (k : Kind) : Bool := (scriptOf k).defer != .sync && (scriptOf k).defer != .noop
+def firstParty (k : Kind) : Bool := (scriptOf k).defer != .sync
 
 /-- per-thread program counter; `u : Option Bool` = `none` not past the use step, `some last` past it (`last`: it
 consumed the final use); `r` = result so far -/
@@ -180,7 +178,6 @@ def toDefer (sc : Script) (u : Option Bool) (r : Res) : Pc :=
   | .none => .done u r
   | .lazy => .dq u r
   | .sync => .rlook u r
-  | .noop => .done u r
 
 def advanceBody (sc : Script) (i : Nat) (u : Option Bool) (r : Res) : Pc :=
   if i + 1 < sc.body.length then .body (i + 1) u r else toDefer sc u r
